@@ -18,7 +18,7 @@ from pathlib import Path
 
 VERIF = Path(__file__).resolve().parents[2]
 REPO = Path(os.environ.get("VERIF_REPO", "/repo"))
-NCPU = os.cpu_count() or 4
+NCPU = int(os.environ.get("VERIF_WORKERS", "0") or 0) or os.cpu_count() or 4
 
 
 class CheckerError(Exception):
